@@ -262,6 +262,10 @@ func mapReduceWithPanicChan[T, U, V any](source <-chan T, panicChan *onceChan, m
 		for range output {
 			panic("more than one element written in reducer")
 		}
+		// output is closed by now, a panic raised after the result was handed over must not be lost
+		if pv, ok := panicChan.read(); ok {
+			panic(pv)
+		}
 	}()
 
 	// collector is used to collect data from mapper, and consume in reducer
@@ -297,10 +301,11 @@ func mapReduceWithPanicChan[T, U, V any](source <-chan T, panicChan *onceChan, m
 
 	go func() {
 		defer func() {
-			drain(collector)
+			// publish the panic first, draining might take long and the caller might return meanwhile
 			if r := recover(); r != nil {
 				panicChan.write(r)
 			}
+			drain(collector)
 			finish()
 		}()
 
